@@ -361,7 +361,12 @@ On request success, this will return a [`{response}`]."#,
     }];
 
     if operation.use_required_struct(Language::Rust) {
-        let lifetimes = if operation.parameters.iter().any(|param| param.ty.is_reference_type()) {
+        // only the required inputs become fields of this struct
+        let lifetimes = if operation
+            .parameters
+            .iter()
+            .any(|param| !param.optional && param.ty.is_reference_type())
+        {
             vec!["'a".to_string()]
         } else {
             vec![]
